@@ -12,6 +12,9 @@ theorem flatten_getElem? (w : List Bytes) (i sp : Nat) (h : i < w.length) (hsp :
   rw [h2, List.getElem?_append_left (by simp only [List.length_drop]; omega)]
   simp
 
+theorem WireR.absLength_eq (r : WireR) : r.absLength = r.wire.flatten.length := by
+  simp [WireR.absLength, accSz_length]
+
 /-! ### ReadByte -/
 
 theorem wire_readByte_ok (w : WireR) (buf : Bytes) (p : Nat) (h : At (.wire w) buf p) (hp : p < buf.length) :
@@ -76,14 +79,20 @@ theorem wire_readWire_ok (w : WireR) (buf : Bytes) (p l : Nat) (h : At (.wire w)
     simp only [Bool.not_eq_true', decide_eq_false_iff_not] at c1
     have := (hb4 l).1 hl
     exact c1 (e6.2 (by omega))
-  simp only [Rd.readWire, WireR.readWire, e1, if_neg hc, g1, Res.bind_ok, Res.pure_eq]
+  have hg : ¬ (l > r1.absLength - r1.absPos) := by
+    have := (hb4 l).1 hl
+    rw [WireR.absLength_eq, e2, e4]; omega
+  simp only [Rd.readWire, WireR.readWire, e1, if_neg hc, if_neg hg, g1, Res.bind_ok, Res.pure_eq]
 
 theorem wire_readWire_err (w : WireR) (buf : Bytes) (p l : Nat) (h : At (.wire w) buf p) (hl : p + l > buf.length) :
     (Rd.wire w).readWire l = .err := by
   obtain ⟨hinv, h2, h3, h4, h5⟩ := at_wire_dest h
   obtain ⟨r1, e1, e2, e3, e4, e5, e6, e7⟩ := nextSeg_spec w hinv.pre hinv.ne
-  have g1 := gather_err w r1 buf p l h hl e2 e4 e5
-  simp only [Rd.readWire, WireR.readWire, e1, g1]
+  obtain ⟨_, _, _, hb4⟩ := at_wire_buf h
+  have hg : l > r1.absLength - r1.absPos := by
+    have hn : ¬ (w.absPos + l ≤ w.wire.flatten.length) := fun hh => by have := (hb4 l).2 hh; omega
+    rw [WireR.absLength_eq, e2, e4]; omega
+  simp only [Rd.readWire, WireR.readWire, e1, if_pos hg]
   split <;> rfl
 
 theorem wire_readFull_ok (w : WireR) (buf : Bytes) (p l : Nat) (h : At (.wire w) buf p) (hl : p + l ≤ buf.length) :
@@ -117,6 +126,8 @@ theorem wire_readBuf_ok (w : WireR) (buf : Bytes) (p l : Nat) (h : At (.wire w) 
   obtain ⟨_, hb2, hb3, hb4⟩ := at_wire_buf h
   obtain ⟨r1, e1, e2, e3, e4, e5, e6, e7⟩ := nextSeg_spec w hinv.pre hinv.ne
   have habs := (hb4 l).1 hl
+  have hg : ¬ (l > w.absLength - w.absPos) := by
+    rw [WireR.absLength_eq]; omega
   by_cases hlt : r1.seg < w.wire.length
   · by_cases hc : r1.pos + l ≤ (w.wire[r1.seg]?.getD []).length
     · have hpre : WireR.Pre { r1 with pos := r1.pos + l } := by
@@ -125,7 +136,7 @@ theorem wire_readBuf_ok (w : WireR) (buf : Bytes) (p l : Nat) (h : At (.wire w) 
         · simp only [e2] at hh; omega
       refine ⟨.wire { r1 with pos := r1.pos + l }, ?_,
         at_wire_step h e2 e3 (by rw [← e4]; simp [WireR.absPos]; omega) hpre⟩
-      simp only [Rd.readBuf, WireR.readBuf, e1, hlt, decide_true, Bool.not_true, Bool.false_eq_true, if_false,
+      simp only [Rd.readBuf, WireR.readBuf, if_neg hg, e1, hlt, decide_true, Bool.not_true, Bool.false_eq_true, if_false,
         WireR.segAt_eq, e2, if_pos hc, Res.bind_ok, Res.pure_eq]
       congr 2
       rw [hb2 l, ← e4]
@@ -136,7 +147,7 @@ theorem wire_readBuf_ok (w : WireR) (buf : Bytes) (p l : Nat) (h : At (.wire w) 
       simp
     · obtain ⟨r', g1, g2⟩ := gather_ok w r1 buf p l h hl e2 e3 e4 e5
       refine ⟨.wire r', ?_, g2⟩
-      simp only [Rd.readBuf, WireR.readBuf, e1, hlt, decide_true, Bool.not_true, Bool.false_eq_true, if_false,
+      simp only [Rd.readBuf, WireR.readBuf, if_neg hg, e1, hlt, decide_true, Bool.not_true, Bool.false_eq_true, if_false,
         WireR.segAt_eq, e2, if_neg hc, Res.pure_eq]
       rw [e2] at g1
       simp only [g1, Res.bind_ok]
@@ -148,26 +159,11 @@ theorem wire_readBuf_ok (w : WireR) (buf : Bytes) (p l : Nat) (h : At (.wire w) 
 
 theorem wire_readBuf_err (w : WireR) (buf : Bytes) (p l : Nat) (h : At (.wire w) buf p) (hl : p + l > buf.length) :
     (Rd.wire w).readBuf l = .err := by
-  obtain ⟨hinv, h2, h3, h4, h5⟩ := at_wire_dest h
-  obtain ⟨_, hb2, hb3, hb4⟩ := at_wire_buf h
-  obtain ⟨r1, e1, e2, e3, e4, e5, e6, e7⟩ := nextSeg_spec w hinv.pre hinv.ne
-  have g1 := gather_err w r1 buf p l h hl e2 e4 e5
-  have hn : ¬ (w.absPos + l ≤ w.wire.flatten.length) := fun hh => by have := (hb4 l).2 hh; omega
-  have hl0 : l > 0 := by
-    have := h.2.2; omega
-  by_cases hlt : r1.seg < w.wire.length
-  · have hc : ¬ r1.pos + l ≤ (w.wire[r1.seg]?.getD []).length := by
-      intro hc
-      have h5 := accSz_succ w.wire r1.seg hlt
-      have h6 := accSz_le_total w.wire (r1.seg + 1)
-      rw [accSz_length] at h6
-      rw [← e4] at hn
-      unfold WireR.absPos at hn
-      rw [e2] at hn
-      omega
-    rw [e2] at g1
-    simp only [Rd.readBuf, WireR.readBuf, e1, hlt, decide_true, Bool.not_true, Bool.false_eq_true, if_false,
-      WireR.segAt_eq, e2, if_neg hc, g1, Res.bind_err]
-  · simp [Rd.readBuf, WireR.readBuf, e1, hlt, hl0]
+  obtain ⟨_, _, _, hb4⟩ := at_wire_buf h
+  obtain ⟨_, _, _, _, h5⟩ := at_wire_dest h
+  have hg : l > w.absLength - w.absPos := by
+    have hn : ¬ (w.absPos + l ≤ w.wire.flatten.length) := fun hh => by have := (hb4 l).2 hh; omega
+    rw [WireR.absLength_eq]; omega
+  simp only [Rd.readBuf, WireR.readBuf, if_pos hg, Res.bind_err]
 
 end Ndn.C03
